@@ -105,10 +105,11 @@ def check(prog, ctx):
         ctx.violated('C14.a', 'global:' + q, None, 'mutable namespace-scope object %s is used by %s' % (q, sorted(set(users))))
     ctx.holds('C14.a', 'census', mc, '%d objects with static storage in the closure of Integrate_MC (%d functions)' % (nstat, len(cl)))
 
-    randomness(prog, ctx, mc, cl)
-    layout(prog, ctx)
-    affine_region(prog, ctx, cl)
-    results(prog, ctx)
+    ctx.sub('randomness', randomness, prog, ctx, mc, cl)
+    ctx.sub('layout', layout, prog, ctx)
+    ctx.sub('affine_region', affine_region, prog, ctx, cl)
+    ctx.sub('miser_estimator', miser_estimator, prog, ctx)
+    ctx.sub('results', results, prog, ctx)
 
 
 def randomness(prog, ctx, mc, cl):
@@ -477,6 +478,75 @@ def results(prog, ctx):
                     and volarg[:1] == [show(strip_casts(a_[regs[0]]))] and strip_casts(a_[cnts[0]]).get('rk') == 'param'
     ctx.decide('C14.e', 'Miser:estimate', im, okm, 'returns MC_Volume(region)*average with average the mean computed by Miser over the same region',
                'Miser estimate is %s' % v)
+
+
+def miser_estimator(prog, ctx):
+    """Every value Miser writes into its mean out-parameter is either the mean of this box's own samples (an accumulator of
+    function values over a loop of npts points, divided by npts) or the volume-fraction-weighted combination f*a + (1-f)*b of
+    the means returned by its two recursive calls.  Anything else (a single sample, a constant) is not an estimate of the box."""
+    from ..symx import terms_at
+    ms = prog.fn(L + 'Miser')
+    outp = [p_ for p_ in ms.params if p_.get('byref') and not p_.get('constref') and p_['ty'].replace(' ', '') == 'double']
+    cnts = [p_ for p_ in ms.params if not p_.get('byref') and p_['ty'].replace('const', '').replace(' ', '') in ('int', 'unsignedint', 'long', 'unsignedlong')]
+    if not outp or not cnts:
+        ctx.undecided('C14.e', 'Miser:estimator-writes', ms, 'mean out-parameter / sample budget not identified')
+        return
+    aid = outp[0]['id']
+    probs, kinds = [], []
+    try:
+        sx = Symx(prog, ms)
+        npts = sx.symbol(cnts[0]['name'], 'int')
+        for s_ in walk_stmts(ms.body):
+            if s_['k'] != 'Expr':
+                continue
+            e = strip(s_['e'])
+            if not (e.get('k') == 'Bin' and e['op'] in ('=', '+=', '-=', '*=', '/=') and strip(e['lhs']).get('id') == aid):
+                continue
+            if e['op'] != '=':
+                probs.append('line %s: compound update of the mean' % s_.get('l'))
+                continue
+            _, res = terms_at(prog, ms, s_, [e['rhs']], sx)
+            for st_, (t_,) in res:
+                t_ = sp.simplify(t_) if not isinstance(t_, Symbol) else t_
+                syms = sorted(t_.free_symbols, key=str)
+                accs = [y_ for y_ in syms if '@loop' in str(y_)]
+                outs_ = [y_ for y_ in syms if '#' in str(y_) and '@loop' not in str(y_)]
+                leaf = len(accs) == 1 and sp.simplify(t_ * npts - accs[0]) == 0
+                comb = False
+                if len(outs_) == 2:
+                    c1, c2 = t_.coeff(outs_[0]), t_.coeff(outs_[1])
+                    rest = sp.simplify(t_ - c1 * outs_[0] - c2 * outs_[1])
+                    comb = rest == 0 and sp.simplify(c1 + c2 - 1) == 0 and not c1.has(outs_[1]) and not c2.has(outs_[0])
+                if leaf:
+                    # the accumulator must sum function values: one loop over [0,npts) adds F:func(...) to it
+                    okacc = False
+                    for lp_ in [x_ for x_ in walk_stmts(ms.body) if x_['k'] in ('For', 'While') and x_.get('l') is not None and ('@loop%d' % x_['l']) in str(accs[0])]:
+                        pre = sx.states_at(ms, lp_)
+                        if not pre:
+                            continue
+                        entry, cnd_, live, done_, n0 = sx.loop_step(lp_, pre[0])
+                        for k_, v_ in entry.items():
+                            if isinstance(v_, Symbol) and str(accs[0]).split('@')[0] == str(v_).split('@')[0] and len(live) == 1:
+                                d_ = sp.expand(live[0].env.get(k_) - v_)
+                                fs_ = [a_ for a_ in d_.atoms(sp.core.function.AppliedUndef) if a_.func.__name__.startswith('F:')]
+                                cl_ = sx.counted(lp_, pre[0], allow_extra_inc=True)
+                                okacc = len(fs_) == 1 and d_ == fs_[0] and cl_ is not None and cl_[1] == 0 and cl_[2] == npts
+                    kinds.append('sample mean' if okacc else 'mean?')
+                    if not okacc:
+                        probs.append('line %s: %s/npts where the accumulator is not the sum of npts function values' % (s_.get('l'), accs[0]))
+                elif comb:
+                    kinds.append('combination')
+                else:
+                    probs.append('line %s: the mean of the box is set to %s, which is neither the mean of its samples nor the weighted mean of the two halves'
+                                 % (s_.get('l'), str(t_)[:120]))
+    except Undecided as ex_:
+        ctx.undecided('C14.e', 'Miser:estimator-writes', ms, 'writes of the mean outside the understood fragment: %s' % ex_)
+        return
+    if not probs and sorted(set(kinds)) != ['combination', 'sample mean']:
+        ctx.undecided('C14.e', 'Miser:estimator-writes', ms, 'expected one leaf mean and one combination, found %s' % kinds)
+        return
+    ctx.decide('C14.e', 'Miser:estimator-writes', ms, not probs, 'the mean is written as sum(f)/npts on a leaf and as f*a+(1-f)*b of the two halves otherwise',
+               '; '.join(probs), witness={'reproducer': 'a Gaussian peaked in one corner of a wide box: the estimate collapses to a single sample (0)'} if probs else None)
 
 
 def affine_region(prog, ctx, cl):
